@@ -46,7 +46,10 @@ func (f *Unzip) Call(s *slip.Scope, args slip.List, depth int) (result slip.Obje
 	slip.CheckArgCount(s, depth, f, args, 1, 12)
 	data := coerceToBytes(args[0])
 
-	r, _ := gzip.NewReader(bytes.NewReader(data)) // can't fail
+	r, err := gzip.NewReader(bytes.NewReader(data))
+	if err != nil {
+		slip.ErrorPanic(s, depth, "unzip failed. %s", err)
+	}
 	// The gzip reader panic on error and does not return an error.
 	buf, _ := io.ReadAll(r)
 	var plist slip.List
